@@ -183,6 +183,7 @@ func (tr *fnTrans) instr(ins ssa.Instruction) {
 		tr.regComp(pc, "(Array Ref (Array "+ks+" Bool))")
 		tr.regComp(vc, "(Array Ref (Array "+ks+" "+vs+"))")
 		tr.set(tr.cur, pc, tr.compSort[pc], app("store", tr.get(tr.cur, pc, tr.compSort[pc]), r.S, "((as const (Array "+ks+" Bool)) false)"))
+		tr.assume(app("=", app(tr.maplenFun(pc), "((as const (Array "+ks+" Bool)) false)"), "0"))
 	case *ssa.MakeSlice:
 		ln, cp := tr.val(x.Len), tr.val(x.Cap)
 		tr.oblige("makeslice", fmt.Sprintf("makeslice.size#%d", tr.ord("makeslice")), and(app("<=", "0", ln.S), app("<=", ln.S, cp.S)), x.Pos(), nil, "")
@@ -566,6 +567,11 @@ func (tr *fnTrans) mapComps(t types.Type) []string {
 	return []string{pc, vc}
 }
 
+// maplenFun declares the cardinality function of a map's key set (one per map type).
+func (tr *fnTrans) maplenFun(presComp string) string {
+	return tr.c.declFun("maplen:"+presComp, []Sort{strings.TrimSuffix(strings.TrimPrefix(tr.compSort[presComp], "(Array Ref "), ")")}, "Int")
+}
+
 func (tr *fnTrans) lookup(x *ssa.Lookup) {
 	c := tr.c
 	mt, ok := types.Unalias(x.X.Type()).Underlying().(*types.Map)
@@ -595,7 +601,12 @@ func (tr *fnTrans) mapUpdate(x *ssa.MapUpdate) {
 	v := tr.val(x.Value)
 	tr.oblige("nil", fmt.Sprintf("nil.mapassign#%d", tr.ord("nil.mapassign")), not(app("=", m.S, "nilref")), x.Pos(), nil, "assignment to entry in nil map")
 	p := tr.get(tr.cur, cs[0], tr.compSort[cs[0]])
-	tr.set(tr.cur, cs[0], tr.compSort[cs[0]], app("store", p, m.S, app("store", app("select", p, m.S), k.S, "true")))
+	oldSet := app("select", p, m.S)
+	newSet := app("store", oldSet, k.S, "true")
+	// cardinality of the key set (len of the map): one more exactly when the key is new
+	ml := tr.maplenFun(cs[0])
+	tr.assume(app("=", app(ml, newSet), "(+ "+app(ml, oldSet)+" "+app("ite", app("select", oldSet, k.S), "0", "1")+")"))
+	tr.set(tr.cur, cs[0], tr.compSort[cs[0]], app("store", p, m.S, newSet))
 	vv := tr.get(tr.cur, cs[1], tr.compSort[cs[1]])
 	tr.set(tr.cur, cs[1], tr.compSort[cs[1]], app("store", vv, m.S, app("store", app("select", vv, m.S), k.S, v.S)))
 }
